@@ -323,13 +323,16 @@ Proof.
     + (* MkdirAll *) unfold ln_mkdir_start. destruct (lookup (fst st) (normalize_path p)).
       * apply (ln_atomic_ok k); exact Hok.
       * split; [reflexivity|]. split; [exact Hok|exact I].
-    + (* OpenFile *) cbn [ln_lin_ok] in Hok. apply negb_true_iff in Hok. rewrite Hok.
-      apply (ln_atomic_ok k). cbn. now rewrite Hok.
+    + (* OpenFile *) cbn [ln_lin_ok] in Hok. apply andb_true_iff in Hok as [Hs Hf].
+      apply negb_true_iff in Hs. apply negb_true_iff in Hf. rewrite Hs, Hf.
+      apply (ln_atomic_ok k). cbn. now rewrite Hs, Hf.
     + (* RemoveAll *) cbn [ln_lin_ok] in Hok. apply negb_true_iff in Hok. rewrite Hok.
       apply (ln_atomic_ok k). cbn. now rewrite Hok.
     + (* Chmod *) cbn [ln_lin_ok] in Hok. apply negb_true_iff in Hok. rewrite Hok.
       apply (ln_atomic_ok k). cbn. now rewrite Hok.
     + (* Chtimes *) cbn [ln_lin_ok] in Hok. apply negb_true_iff in Hok. rewrite Hok.
+      apply (ln_atomic_ok k). cbn. now rewrite Hok.
+    + (* HReaddirnames *) cbn [ln_lin_ok] in Hok. apply negb_true_iff in Hok. rewrite Hok.
       apply (ln_atomic_ok k). cbn. now rewrite Hok.
   - (* LnMkdirLocked *)
     destruct o; try contradiction; unfold ln_sec; cbn [snd fst]; unfold ln_mkdir_locked;
@@ -361,10 +364,10 @@ Theorem repaired_linearizable s0 progs sched hist :
   linearizable lin_step lin_obs s0 hist (lin_obs (lg_st (ln_run ln_cfg_atomic s0 progs sched))).
 Proof. apply sections_linearizable. intros; apply ln_lin_ok_atomic. Qed.
 
-(* the methods with one critical section today, whatever the configuration *)
+(* the methods with one critical section whatever the configuration *)
 Definition ln_single_today (o : op) : bool :=
   match o with
-  | OpenFile _ _ _ | Mkdir _ _ | MkdirAll _ _ | RemoveAll _ | Chmod _ _ | Chtimes _ _ => false
+  | OpenFile _ _ _ | Mkdir _ _ | MkdirAll _ _ | RemoveAll _ | Chmod _ _ | Chtimes _ _ | HReaddirnames _ _ => false
   | _ => true
   end.
 Lemma ln_single_today_ok k o : ln_single_today o = true -> ln_lin_ok k o = true.
@@ -739,40 +742,112 @@ Definition w5_sched : list nat := [0; 0; 1; 1; 1; 1; 1; 1; 0; 0; 0]%nat.
 
 Theorem refuted_excl_create k : sc_open_split k = true -> refuted k lin_init.
 Proof.
-  destruct k as [a b c d e f]; cbn [sc_open_split sc_mkdir_setmode sc_rmall_split sc_chmod_split sc_chtimes_split]; intros ->. apply (refuted_by _ _ w1_progs w1_sched);
-    destruct b, c, d, e, f; vm_compute; reflexivity.
+  destruct k as [a b c d e f g h]; cbn [sc_open_split sc_mkdir_setmode sc_rmall_split sc_chmod_split sc_chtimes_split]; intros ->. apply (refuted_by _ _ w1_progs w1_sched);
+    destruct b, c, d, e, f, g, h; vm_compute; reflexivity.
 Qed.
 
 (* both calls of the witness report success *)
 Lemma refuted_excl_create_both k : sc_open_split k = true ->
   map lc_res (lg_lin (ln_run k lin_init w1_progs w1_sched)) = [RHandle 0; RHandle 0].
-Proof. destruct k as [a b c d e f]; cbn [sc_open_split sc_mkdir_setmode sc_rmall_split sc_chmod_split sc_chtimes_split]; intros ->. destruct b, c, d, e, f; vm_compute; reflexivity. Qed.
+Proof. destruct k as [a b c d e f g h]; cbn [sc_open_split sc_mkdir_setmode sc_rmall_split sc_chmod_split sc_chtimes_split]; intros ->. destruct b, c, d, e, f, g, h; vm_compute; reflexivity. Qed.
 
 Theorem refuted_mkdir_then_remove k : sc_mkdir_setmode k = true -> refuted k lin_init.
 Proof.
-  destruct k as [a b c d e f]; cbn [sc_open_split sc_mkdir_setmode sc_rmall_split sc_chmod_split sc_chtimes_split]; intros ->. apply (refuted_by _ _ w2_progs w2_sched);
-    destruct a, b, d, e, f; vm_compute; reflexivity.
+  destruct k as [a b c d e f g h]; cbn [sc_open_split sc_mkdir_setmode sc_rmall_split sc_chmod_split sc_chtimes_split]; intros ->. apply (refuted_by _ _ w2_progs w2_sched);
+    destruct a, b, d, e, f, g, h; vm_compute; reflexivity.
 Qed.
 
 Lemma refuted_mkdir_then_remove_results k : sc_mkdir_setmode k = true ->
   map (fun x => (lc_op x, lc_res x)) (lg_lin (ln_run k lin_init w2_progs w2_sched)) =
   [((None, Remove w_d), ROk); ((None, Mkdir w_d 493), RErr (EW KNotExist))].
-Proof. destruct k as [a b c d e f]; cbn [sc_open_split sc_mkdir_setmode sc_rmall_split sc_chmod_split sc_chtimes_split]; intros ->. destruct a, b, d, e, f; vm_compute; reflexivity. Qed.
+Proof. destruct k as [a b c d e f g h]; cbn [sc_open_split sc_mkdir_setmode sc_rmall_split sc_chmod_split sc_chtimes_split]; intros ->. destruct a, b, d, e, f, g, h; vm_compute; reflexivity. Qed.
 
 Theorem refuted_removeall k : sc_rmall_split k = true -> refuted k w3_s0.
 Proof.
-  destruct k as [a b c d e f]; cbn [sc_open_split sc_mkdir_setmode sc_rmall_split sc_chmod_split sc_chtimes_split]; intros ->. apply (refuted_by _ _ w3_progs w3_sched);
-    destruct a, b, c, e, f; vm_compute; reflexivity.
+  destruct k as [a b c d e f g h]; cbn [sc_open_split sc_mkdir_setmode sc_rmall_split sc_chmod_split sc_chtimes_split]; intros ->. apply (refuted_by _ _ w3_progs w3_sched);
+    destruct a, b, c, e, f, g, h; vm_compute; reflexivity.
 Qed.
 
 Theorem refuted_chmod_rename k : sc_chmod_split k = true -> refuted k w4_s0.
 Proof.
-  destruct k as [a b c d e f]; cbn [sc_chmod_split]; intros ->. apply (refuted_by _ _ w4_progs w4_sched);
-    destruct a, b, c, d, f; vm_compute; reflexivity.
+  destruct k as [a b c d e f g h]; cbn [sc_chmod_split]; intros ->. apply (refuted_by _ _ w4_progs w4_sched);
+    destruct a, b, c, d, f, g, h; vm_compute; reflexivity.
 Qed.
 
 Theorem refuted_chtimes_rename k : sc_chtimes_split k = true -> refuted k w4_s0.
 Proof.
-  destruct k as [a b c d e f]; cbn [sc_chtimes_split]; intros ->. apply (refuted_by _ _ w5_progs w5_sched);
-    destruct a, b, c, d, e; vm_compute; reflexivity.
+  destruct k as [a b c d e f g h]; cbn [sc_chtimes_split]; intros ->. apply (refuted_by _ _ w5_progs w5_sched);
+    destruct a, b, c, d, e, g, h; vm_compute; reflexivity.
+Qed.
+
+(* ================================================================ the two later switches *)
+(* ---- the split Readdirnames, run back to back, is the specification's Readdirnames: the
+   selection of entries in [ln_rdn_list] is the one of [m_readdir] ---- *)
+Lemma ln_rdn_names_eq s i h' refs :
+  map fi_name (map (fun r => match get_node s r with Some c => finfo_of c | None => mkFi [] false 0 0 0 end) refs)
+  = ln_rdn_names (set_handle s i h') refs.
+Proof.
+  unfold ln_rdn_names. rewrite map_map. apply map_ext. intros r.
+  unfold get_node, set_handle; cbn [mheap]. destruct (nth_error (mheap s) r); reflexivity.
+Qed.
+
+Lemma ln_rdn_back_to_back s i count :
+  m_step_raw s (HReaddirnames i count) =
+  match ln_rdn_list s i count with
+  | (s1, inl (refs, e)) => (s1, RNames (ln_rdn_names s1 refs) e)
+  | (s1, inr r) => (s1, r)
+  end.
+Proof.
+  cbn [m_step_raw]. unfold m_hop, ln_rdn_list.
+  destruct (nth_error (mhandles s) i) as [h|]; [|reflexivity].
+  destruct (get_node s (href h)) as [n|] eqn:En; [|reflexivity].
+  unfold m_readdir. rewrite En.
+  destruct (ndir n); cbn [negb]; [|reflexivity].
+  cbv zeta.
+  match goal with |- context [firstn ?a ?b] => set (refs := firstn a b) end.
+  rewrite <- (ln_rdn_names_eq s i _ refs).
+  match goal with |- context [map fi_name ?l] => set (infos := l) end.
+  destruct (_ && _)%bool; [|reflexivity].
+  destruct infos; reflexivity.
+Qed.
+
+(* ---- Readdirnames on an open directory ‖ Rename of a child out of it: the listing contains
+   the name "g", which never was a name in /d ---- *)
+Definition w6_setup : list lop := [(None, Mkdir w_d 493); (Some 1%nat, Create w_dx); (Some 10%nat, Open w_d)].
+Definition w6_s0 : lstate := fst (lin_replay lin_step lin_init w6_setup).
+Definition w6_progs : list (list lop) := [[(None, HReaddirnames 10 (-1))]; [(None, Rename w_dx w_g)]].
+Definition w6_sched : list nat := [0; 0; 1; 1; 1; 0; 0]%nat.
+
+Theorem refuted_readdirnames_rename k : sc_rdnames_split k = true -> refuted k w6_s0.
+Proof.
+  destruct k as [a b c d e f g h]; cbn [sc_rdnames_split]; intros ->. apply (refuted_by _ _ w6_progs w6_sched);
+    destruct a, b, c, d, e, f, g; vm_compute; reflexivity.
+Qed.
+
+Lemma refuted_readdirnames_rename_results k : sc_rdnames_split k = true ->
+  map (fun x => (lc_op x, lc_res x)) (lg_lin (ln_run k w6_s0 w6_progs w6_sched)) =
+  [((None, Rename w_dx w_g), ROk); ((None, HReaddirnames 10 (-1)), RNames [[103%N]] None)].
+Proof. destruct k as [a b c d e f g h]; cbn [sc_rdnames_split]; intros ->. destruct a, b, c, d, e, f, g; vm_compute; reflexivity. Qed.
+
+(* ---- OpenFile(O_WRONLY|O_CREATE|O_TRUNC) creates /f; Chtimes sets its time; OpenFile's
+   truncate, after its locked section, stamps the file again: Chtimes "succeeded" without
+   effect on a file that OpenFile created before it ---- *)
+Definition w_crtr : Z := Z.lor (Z.lor o_wronly o_create) o_trunc.
+Definition w7_progs : list (list lop) := [[(Some 10%nat, OpenFile w_f w_crtr 412)]; [(None, Chtimes w_f 1000)]].
+(* padded: events of a thread that has finished are no-ops (Chtimes has one or two sections) *)
+Definition w7_sched : list nat := [0; 0; 1; 1; 1; 1; 0; 0; 0]%nat.
+
+Theorem refuted_openfile_trunc k : sc_open_split k = false -> sc_open_finish k = true -> refuted k lin_init.
+Proof.
+  destruct k as [a b c d e f g h]; cbn [sc_open_split sc_open_finish]; intros -> ->. apply (refuted_by _ _ w7_progs w7_sched);
+    destruct b, c, d, e, f, h; vm_compute; reflexivity.
+Qed.
+
+Lemma refuted_openfile_trunc_results k : sc_open_split k = false -> sc_open_finish k = true ->
+  map (fun x => (lc_op x, lc_res x)) (lg_lin (ln_run k lin_init w7_progs w7_sched)) =
+    [((None, Chtimes w_f 1000), ROk); ((Some 10%nat, OpenFile w_f w_crtr 412), RHandle 0)] /\
+  map e_mtime (lin_obs (lg_st (ln_run k lin_init w7_progs w7_sched))) = [BIG; BIG].
+Proof.
+  destruct k as [a b c d e f g h]; cbn [sc_open_split sc_open_finish]; intros -> ->.
+  destruct b, c, d, e, f, h; vm_compute; split; reflexivity.
 Qed.
